@@ -22,11 +22,11 @@ pub fn url_from(r:&mut R, rules:&[String])->(String,String,String){
     let src_from_dom = base.split("domain=").nth(1).map(|d| d.split(|c| c=='|'||c==',').next().unwrap().trim_start_matches('~').to_string());
     let mut u;
     if let Some(b)=body.strip_prefix("||"){ let b=b.trim_end_matches('|'); let hl=b.find(|c| c=='/'||c=='^'||c=='*').unwrap_or(b.len()); let (h,rest)=b.split_at(hl);
-        u=format!("https://{}{}{}", if r.p(40){ format!("{}.",TOK[r.b(8)]) } else {String::new()}, h, rest.replace('^',["/","?",":"][r.b(3)]).replace('*',["","x","/zz/"][r.b(3)])); if !u[8..].contains('/'){ u.push('/'); } }
+        u=format!("https://{}{}{}", if r.p(40){ format!("{}.",TOK[r.b(8)]) } else {String::new()}, h, rest.replace('^',["/","?",":","*","!"][r.b(5)]).replace('*',["","x","/zz/"][r.b(3)])); if !u[8..].contains('/'){ u.push('/'); } }
     else if let Some(b)=body.strip_prefix('|'){ u=b.trim_end_matches('|').replace('^',"/").replace('*',"zz"); if !u.contains("://"){ u=format!("https://{}",u);} if u.matches('/').count()<3 { u.push('/'); } }
-    else { let b=body.trim_end_matches('|').replace('^',["/","?","&"][r.b(3)]).replace('*',["","q","/zz/"][r.b(3)]); u=format!("https://{}/{}{}{}", host(r), if r.p(50){ ["l","x","zz/","ad","s"][r.b(5)] } else {""}, b, if base.ends_with('|')||r.p(40) {""} else {["s","x","/more","?k=v"][r.b(4)]}); }
+    else { let b=body.trim_end_matches('|').replace('^',["/","?","&","*","~"][r.b(5)]).replace('*',["","q","/zz/"][r.b(3)]); u=format!("https://{}/{}{}{}", host(r), if r.p(50){ ["l","x","zz/","ad","s"][r.b(5)] } else {""}, b, if base.ends_with('|')||r.p(40) {""} else {["s","x","/more","?k=v"][r.b(4)]}); }
     if r.p(10){ u=u.replacen("https","http",1); } if r.p(4){ u=u.replacen("https","wss",1); }
-    if r.p(30){ let i=9.min(u.len())+r.b(u.len().saturating_sub(9).max(1)); if u.is_char_boundary(i){ match r.b(3){0=>{u.insert(i,'x');},1=>{ if i<u.len(){u.remove(i);} },_=>{u.insert(i,'/');} } } }
+    if r.p(30){ let i=9.min(u.len())+r.b(u.len().saturating_sub(9).max(1)); if u.is_char_boundary(i){ match r.b(5){0=>{u.insert(i,'x');},1=>{ if i<u.len(){u.remove(i);} },2=>{u.insert(i,'*');},3=>{u.insert(i,'%');},_=>{u.insert(i,'/');} } } }
     let src = if r.p(10){ String::new() } else if let (Some(d),true)=(src_from_dom, r.p(60)) { format!("https://{}{}/", if r.p(30){"sub."}else{""}, d) } else if r.p(50) { u.clone() } else { format!("https://{}/",host(r)) };
     let ty=["script","image","document","xhr","other","websocket","subdocument"][r.b(7)].to_string();
     (u,src,ty) }
